@@ -13,7 +13,7 @@ pub const DEF: PropDef = PropDef {
     id: "C12",
     run,
     oracle,
-    rule: "cases = histories of 1..3 calls, each a buffer of 1..6 chained packets of versions {5,7,9,10} (conformant plans; V9 count = flowsets) with, optionally, an atom of an unknown version number (0, 1, 6, 8, 11, 255, 256, 0x0900, random) + junk, a truncated packet or a hostile mutation; a list of extra allowed numbers that sometimes contains the unknown version used. For every case the oracle enumerates all 16 subsets S of {5,7,9,10}, each with and without the extras (32 configurations, the same S for every call), plus - for histories of >= 2 calls - 8 schedules that reassign the public allowed_versions field between calls (shrinking and growing it): the S-parser's result of every call must equal the leading elements of a twin parser that allows all 65,536 versions and is in the same state (built by replaying the part of every earlier buffer the S-parser consumed), up to but excluding the first element whose start offset holds a version not in S (Debug equality); the S-parser's caches after the call must equal those of a third all-allowing parser fed only the bytes before that offset; an allowed version outside {5,7,9,10} must yield a final UnknownVersion error. non-trivial = some call has >= 2 packets of >= 2 distinct versions, or a V9/IPFIX template packet is filtered; distinct by digest.",
+    rule: "cases = histories of 1..3 calls, each a buffer of 1..6 chained packets of versions {5,7,9,10} (conformant plans; V9 count = flowsets) with, optionally, an atom of an unknown version number (0, 1, 6, 8, 11, 255, 256, 0x0900, random) + junk, a truncated packet or a hostile mutation; a list of extra allowed numbers that sometimes contains the unknown version used. For every case the oracle enumerates all 16 subsets S of {5,7,9,10}, each with and without the extras (32 configurations, the same S for every call), plus - for histories of >= 2 calls - 8 schedules that reassign the public allowed_versions field between calls (shrinking and growing it): the S-parser's result of every call must equal the leading elements of a twin parser that allows all 65,536 versions and is in the same state (built by replaying the part of every earlier buffer the S-parser consumed), up to but excluding the first element whose start offset holds a version not in S (Debug equality); the S-parser's caches after the call must equal those of a third all-allowing parser fed only the bytes before that offset; an allowed version outside {5,7,9,10} must yield a final UnknownVersion error whose remaining bytes are the unparsed bytes (the junk behind the unknown version is up to 66,000 bytes long); bytes carried inside the error kind must be those same bytes, not a part of them. non-trivial = some call has >= 2 packets of >= 2 distinct versions, or a V9/IPFIX template packet is filtered; distinct by digest.",
     assumptions: &["element start offsets come from the C02 decomposition of the all-allowing twin's result"],
 };
 
@@ -120,6 +120,17 @@ pub fn oracle(case: &Case) -> Outcome {
                         match rs.last() {
                             Some(NetflowPacket::Error(e)) if matches!(e.error, NetflowParseError::UnknownVersion(_)) && e.remaining == buf[off..] => {
                                 o.label("allowed-unknown-version-error");
+                                // the bytes inside the error kind, if it carries any, are the
+                                // unparsed bytes too (with or without the version word) - not a
+                                // part of them
+                                if let NetflowParseError::UnknownVersion(p) = &e.error {
+                                    if !(p.is_empty() || p[..] == buf[off..] || p[..] == buf[off + 2..]) {
+                                        return Outcome::violation(format!(
+                                            "allowed={:?} call {}: the UnknownVersion error for version {} at offset {} carries {} bytes that are neither the {} unparsed bytes nor those after the version word",
+                                            s, ci, v, off, p.len(), buf.len() - off
+                                        ));
+                                    }
+                                }
                             }
                             _ => {
                                 return Outcome::violation(format!(
@@ -172,7 +183,7 @@ pub fn c12_case() -> BoxedStrategy<Case> {
     (
         gen::pool(2..=3, 5, false),
         proptest::collection::vec(call, 1..=3),
-        proptest::option::weighted(0.4, (any::<u8>(), any::<u8>(), odd_version(), proptest::collection::vec(any::<u8>(), 0..40))),
+        proptest::option::weighted(0.4, (any::<u8>(), any::<u8>(), odd_version(), prop_oneof![40 => proptest::collection::vec(any::<u8>(), 0..40), 1 => proptest::collection::vec(any::<u8>(), 66_000..66_100)])),
         proptest::collection::vec(odd_version(), 0..3),
         proptest::option::weighted(0.2, (any::<u8>(), gen::mutation())),
         any::<bool>(),
